@@ -82,34 +82,35 @@ type machine struct {
 	di     int
 	trace  []decision
 
-	globals    map[*ssa.Global]*value
-	initDone   map[*ssa.Package]bool
-	arrays     []arrInfo
-	nondets    []nondetRec
-	steps      int
-	depth      int
-	curInstr   ssa.Instruction
-	curFn      *ssa.Function
-	allocMax   int64
-	witnesses  []string
-	asserts    []assertRec
-	violation  *violationRec
-	unknowns   int
-	onces      map[*value]bool
-	onceState  map[*value]int
-	pools      map[*value][]value
-	mutexes    map[*value]bool
-	side       map[string]value // engine-side state for harness models
-	now        *Term            // last clock instant
-	entered    map[*ssa.Function]int
-	notes      []string
-	model      map[string]uint64 // an assignment satisfying pc, or nil
-	memo       map[*Term]uint64
-	hiddenVars []*Term
-	inDecide   bool
-	unwind     int
-	thr        *threadsState
-	digest     []string
+	globals     map[*ssa.Global]*value
+	initDone    map[*ssa.Package]bool
+	arrays      []arrInfo
+	nondets     []nondetRec
+	steps       int
+	depth       int
+	curInstr    ssa.Instruction
+	curFn       *ssa.Function
+	allocMax    int64
+	witnesses   []string
+	asserts     []assertRec
+	violation   *violationRec
+	unknowns    int
+	onces       map[*value]bool
+	onceState   map[*value]int
+	pools       map[*value][]value
+	mutexes     map[*value]bool
+	side        map[string]value // engine-side state for harness models
+	now         *Term            // last clock instant
+	entered     map[*ssa.Function]int
+	notes       []string
+	model       map[string]uint64 // an assignment satisfying pc, or nil
+	memo        map[*Term]uint64
+	hiddenVars  []*Term
+	inDecide    bool
+	unwind      int
+	thr         *threadsState
+	digest      []string
+	symOperands bool
 }
 
 type violationRec struct {
